@@ -64,7 +64,7 @@ def expected_ifConds : List String := [
   "verifiedSignature != nil => index.Signature = verifiedSignature"]
 
 /-- the decisions of `parseRepositoryIndex`, in source order, as `parseIndexWith`/`collect` mirror them -/
-theorem tie_ifConds : Generated.pri_ifConds = expected_ifConds := rfl
+theorem tie_ifConds : Generated.pri_ifConds = expected_ifConds := by rfl
 
 /-- the verified bytes are the unread remainder of the buffer; the verdict starts as `false`;
 after a successful verification the buffer that is parsed is replaced by the verified bytes -/
